@@ -443,7 +443,12 @@ pub mod imports {
             if items.is_empty() {
                 return Pipeline { input: vec![], regrouped: vec![], groups: vec![] };
             }
-            let trees: Vec<UseTree> = iv::trees_of_items(context, &items, krate.spans.inner_span);
+            // the span of the run, as walk_reorderable_or_regroupable_items computes it
+            let span = crate::utils::mk_sp(
+                crate::spanned::Spanned::span(items[0]).lo(),
+                crate::spanned::Spanned::span(items[items.len() - 1]).hi(),
+            );
+            let trees: Vec<UseTree> = iv::trees_of_items(context, &items, span);
             let input = trees.iter().map(|t| iv::encode(context, t)).collect();
             let regrouped_trees = normalize_use_trees_with_granularity(trees, config.imports_granularity());
             let regrouped = regrouped_trees.iter().map(|t| iv::encode(context, t)).collect();
@@ -468,7 +473,14 @@ pub mod imports {
         with_crate(text, config, |krate, context| {
             let items: Vec<&rustc_ast::ast::Item> = krate.items.iter().map(|i| &**i).collect();
             let g: ImportGranularity = config.imports_granularity();
-            iv::trees_of_items(context, &items, krate.spans.inner_span)
+            if items.is_empty() {
+                return vec![];
+            }
+            let span = crate::utils::mk_sp(
+                crate::spanned::Spanned::span(items[0]).lo(),
+                crate::spanned::Spanned::span(items[items.len() - 1]).hi(),
+            );
+            iv::trees_of_items(context, &items, span)
                 .iter()
                 .map(|t| iv::per_tree(t, g))
                 .collect()
